@@ -4,7 +4,10 @@ go 1.25.0
 
 require github.com/open2b/scriggo v0.0.0
 
-require gopkg.in/yaml.v3 v3.0.1 // indirect
+require (
+	golang.org/x/net v0.34.0 // indirect
+	gopkg.in/yaml.v3 v3.0.1 // indirect
+)
 
 replace github.com/open2b/scriggo => /repo
 
